@@ -99,9 +99,9 @@ Definition segMetaFromTime (r : rep) (loopMS : Z) (c : tcfg) (time nowMS : Z) : 
   let timeAfterWrap := time - wrapTime in
   let idx := searchIdx (fun s => st s >=? timeAfterWrap) (segs r) in
   match nthZ idx (segs r) with
-  | None => TErr "no matching segment"
+  | None => TNotFound                      (* no matching segment: 404 *)
   | Some s =>
-    if negb (st s =? timeAfterWrap) then TErr "segment time mismatch" else
+    if negb (st s =? timeAfterWrap) then TNotFound (* not a segment start: 404 *) else
     timed (checkTime (en s + wrapTime + mediaRef) (ts r) nowMS (tsbdS c) (ato c))
       (TOk {| origTime := st s; newTime := time; origNr := snr s;
               newNr := u32 (startNr c + idx + nrWraps * lenZ (segs r));
@@ -117,7 +117,7 @@ Definition lookup (r : rep) (loopMS : Z) (c : tcfg) (mode : addressing) (segID n
   match mode with
   | ByNumber =>
     let nr := u32 segID in
-    if nr <? u32 (startNr c) then TNotFound else segMetaFromNr r loopMS c nr nowMS
+    if (segID >? maxu32) || (nr <? u32 (startNr c)) then TNotFound else segMetaFromNr r loopMS c nr nowMS
   | ByTime => segMetaFromTime r loopMS c (u64 segID) nowMS
   end.
 
